@@ -564,6 +564,17 @@ for it in range(num_fp):
         else:
             tt[i] *= float(rng.choice([1.0, 50.0]))
             tt[i, int(rng.integers(0, nt))] = float(rng.choice([-1, 1])) * 20.0
+            # "whatever values are attached": channels the acquisition marked invalid (all NaN), muted (all zero), or with a
+            # few NaN / infinite samples
+            r_ = rng.random()
+            if r_ < 0.12:
+                tt[i, :] = np.nan
+            elif r_ < 0.22:
+                tt[i, :] = 0.0
+            elif r_ < 0.30:
+                tt[i, rng.integers(0, nt, size=3)] = np.nan
+            elif r_ < 0.35:
+                tt[i, int(rng.integers(0, nt))] = np.inf
     if use_window:
         tmin = float(samples_t[tmin_i]) if rng.random() < 0.5 else float(samples_t[tmin_i] - 0.3 * dt)
         tmax = float(samples_t[tmax_i]) if rng.random() < 0.5 else float(samples_t[tmax_i] + 0.3 * dt)
@@ -579,7 +590,7 @@ for c in fp_cases:
     lines.append(f"FP {fhex(c['start'])} {fhex(c['dt'])} {c['nt']} {fhex(c['c'])} "
                  f"{'none' if c['tmin'] is None else fhex(c['tmin'])} {'none' if c['tmax'] is None else fhex(c['tmax'])} "
                  + probe_block(locs, c["dead"]) + " " + frame_block(c["tx"], c["rx"]) + " "
-                 + " ".join(fhex(v) for v in c["tt"].ravel()))
+                 + " ".join(fhex(v) for v in np.where(np.isfinite(c["tt"]), c["tt"], 0.0).ravel()))   # (non-finite garbage of unusable rows as 0 for the model)
 outs = drv.run(lines) if lines else []
 for c, o in zip(fp_cases, outs):
     n, probe = c["n"], c["probe"]
@@ -622,6 +633,23 @@ for c, o in zip(fp_cases, outs):
         if np.any(impl["times"][c["usable"]] != want[c["usable"]]):
             spec_ok = False
             chk.violation("B:times", "detected front-wall time is not the time of the largest |sample| in the window", replay)
+        # ... and on EVERY timetrace with finite samples (usable or not): the detected time is a sample time inside the
+        # requested window whose |sample| is not exceeded inside the window (half a step of slack at the window ends)
+        st_ = Time(c["start"], c["dt"], c["nt"]).samples
+        lo_t = st_[0] if c["tmin"] is None else c["tmin"]
+        hi_t = st_[-1] if c["tmax"] is None else c["tmax"]
+        inner_ = (st_ >= lo_t + 0.5 * c["dt"]) & (st_ <= hi_t - 0.5 * c["dt"])
+        for i_ in np.flatnonzero(np.all(np.isfinite(c["tt"]), axis=1)):
+            t_i = float(impl["times"][i_])
+            k_i = int(np.argmin(np.abs(st_ - t_i)))
+            ok_ = st_[k_i] == t_i and lo_t - 0.5 * c["dt"] <= t_i <= hi_t + 0.5 * c["dt"] and \
+                (not inner_.any() or abs(c["tt"][i_, k_i]) >= np.max(np.abs(c["tt"][i_, inner_])))
+            if not ok_:
+                spec_ok = False
+                chk.violation("B:times-window", "a detected time is not the time of a largest |sample| inside the requested window",
+                              dict(replay, timetrace=int(i_), detected_time=t_i, window=[lo_t, hi_t],
+                                   row_is_all_zero=bool(np.all(c["tt"][i_] == 0.0))))
+                break
         tol_scale = scale if c["on_grid"] else None
         if c["on_grid"]:
             preds = {"z_equals_minus_distance": not differ(impl["locs"][:, 2], -c["d_e"], scale),
@@ -642,7 +670,10 @@ for c, o in zip(fp_cases, outs):
                               dict(replay, impl_z_o=impl["z_o"], impl_theta=impl["theta"], impl_locations=impl["locs"]))
     if compare_move("B", impl, mod, scale, replay, spec_ok) and impl["err"] is None:
         mt = np.array(mod["rest"])
-        if mt.shape != impl["times"].shape or np.any(mt != impl["times"]):
+        # (rows holding NaN / infinite garbage were handed to the model as zeros: the detected time of such an unusable
+        #  timetrace is not compared, the property says nothing about it)
+        finite_rows = np.all(np.isfinite(c["tt"]), axis=1)
+        if mt.shape != impl["times"].shape or np.any(mt[finite_rows] != impl["times"][finite_rows]):
             chk.violation("B:times-model", "detected times differ from the model (exact comparison)",
                           dict(replay, impl_times=impl["times"], model_times=mt), failing_input_found=not spec_ok)
 
